@@ -66,12 +66,9 @@ func zzSameIP(a, b net.IP) bool {
 // fields and host verdicts; and the answer to a lookup does not depend on the
 // lookups made before it (cache of 2 entries, so eviction happens too).
 //
-//verif:harness kind=api unwind=64 bound=rules<=2(quick)/3(thorough),queries<=2,hosts=2,cache=2-entries
+//verif:harness kind=api unwind=64 bound=rules<=2,queries<=2,hosts=2(quick)/4(thorough),cache=2-entries
 func ZZ_C09_FirstMatchAndCache() {
-	nr := 1 + verifChoice("rules", 2)
-	if verifThorough() {
-		nr = 1 + verifChoice("rules3", 3)
-	}
+	nr := 1 + verifChoice("rules", 2) // three symbolic rules do not finish within the thorough budget
 	rules := make([]compiledRule[int], nr)
 	for i := range rules {
 		rules[i] = zzRule(i)
@@ -83,8 +80,10 @@ func ZZ_C09_FirstMatchAndCache() {
 		{Name: "a.example"},
 		{Name: "a.example", IPv4: net.IPv4(1, 2, 3, 4)},
 	}
-	// (three rules with four kinds of host do not finish within the thorough budget: the host kinds stay at two)
-	nq := 2 // three queries over three rules do not finish within the thorough budget
+	if verifThorough() {
+		hosts = append(hosts, HostInfo{IPv4: net.IPv4(1, 2, 3, 4)}, HostInfo{IPv6: net.ParseIP("2001:db8::1")})
+	}
+	nq := 2 // a third query does not finish within the thorough budget
 	for q := 0; q < nq; q++ {
 		h := hosts[verifChoice("host", len(hosts))]
 		proto := Protocol(verifInt("proto", 1, 2))
